@@ -314,7 +314,15 @@ def for_over_absstr(interp, st, it, frame):
 def while_loop(interp, st, frame):
     from .absint import BreakEx, ContinueEx, CannotDecide
     iters = 0
+    watched = sorted(set(_assigned_names(st.body)) | {n.id for n in ast.walk(st.test) if isinstance(n, ast.Name)})
+    seen_states = set()
     while True:
+        # a concrete loop state that comes back unchanged is a proof of non-termination (e.g. inf / 2 == inf)
+        snap = tuple((n, type(frame.locals.get(n)).__name__, repr(frame.locals.get(n))) for n in watched if n in frame.locals)
+        if snap and all(isinstance(frame.locals.get(n), (int, float, str, bool, type(None))) for n in watched if n in frame.locals):
+            if snap in seen_states and not any(isinstance(x, ast.Call) for b_ in st.body for x in ast.walk(b_)):
+                raise CannotDecide("the loop at `while %s` never terminates: its state %s repeats" % (short(st.test), dict((a, c) for a, b, c in snap)))
+            seen_states.add(snap)
         n0 = len(interp.chooser.trace)
         saved_refine = dict(interp.refine)
         c = interp.truth(interp.eval(st.test, frame), st.test)
